@@ -96,7 +96,7 @@ Addressable ==
 
 \* what is resolved is one of the matching targets; the permitted alternative only ever adds an ambiguity
 PermittedSane ==
-    \A o \in Permitted(e, T) : o = Outcome(e, T) \/ (o.k = "ambiguous" /\ Outcome(e, T).k \in {"ok", "ambiguous"} /\ Outcome(e, T).ids \subseteq o.ids)
+    \A o \in Permitted(e, T) : o = Outcome(e, T) \/ (Outcome(e, T).k = "notfound" /\ e.p # "") \/ (o.k = "ambiguous" /\ Outcome(e, T).k \in {"ok", "ambiguous"} /\ Outcome(e, T).ids \subseteq o.ids)
 
 \* adding PATH or TYPE never moves a resolved expression to another target (only to an error), narrows an
 \* ambiguity to a subset of its candidates, and never makes something out of nothing
